@@ -637,6 +637,21 @@ def random_stop(rng, spec, thr_si=None):
     return {'sensor': 'amp', 'idx': 0, 'op': op, 'thr': gen.in_unit(rng, 'Current', v, True)}
 
 
+def _dyadic(fr):
+    fr = F(fr)
+    return fr.denominator & (fr.denominator - 1) == 0 and fr.denominator <= 2 ** 40
+
+
+def timer_hit_exact(t_si, unit, rl):
+    """an instant that hits a timer edge exactly, all operands in the same unit: floats decide like exact arithmetic only
+    if the instant, the start and the duration are exactly representable in that unit (0.0625 s is, 1/960 min is not:
+    `t - start <= duration` then depends on the rounding of the subtraction)"""
+    try:
+        return all(_dyadic(x) for x in (F(t_si) / SI['Time'][unit], F(rl['start'][0]), F(rl['dur'][0])))
+    except (KeyError, ZeroDivisionError, ValueError):
+        return False
+
+
 def near_threshold(spec, tr):
     """a discrete decision of this history lies within rounding distance of its threshold, so exact
     and floating-point arithmetic may legitimately decide differently"""
@@ -674,7 +689,7 @@ def near_threshold(spec, tr):
                 for edge, eu in ((s, rl['start'][1]), (s + d, rl['dur'][1])):
                     # in equal units an exact hit is decided identically by floats and rationals;
                     # across units the code converts first, so an exact hit is within rounding too
-                    mixed = len(units) > 1
+                    mixed = len(units) > 1 or not timer_hit_exact(t, tu, rl)
                     if (0 < abs(t - edge) or mixed) and abs(t - edge) <= 1e-9 * max(1.0, abs(edge)):
                         return 'instant within rounding of a timer window edge'
     _, nf = oracle_C16(spec, tr)
